@@ -208,6 +208,27 @@ class Evaluator(object):
         self.events.append(ev)
         return ev
 
+    def moved_alias(self, fnpath, let_stmt):
+        """`let mut x = y;` where y (a plain local or parameter) is mentioned nowhere else: x is the same object under a new
+        name, so it keeps y's term instead of becoming an opaque mutable local."""
+        init = let_stmt.get('init')
+        pat = let_stmt.get('pat', {})
+        if pat.get('k') != 'Bind' or pat.get('sub') or init is None or let_stmt.get('els') is not None:
+            return None
+        y = H.peel(init)
+        if y.get('k') != 'Local':
+            return None
+        cache = self.__dict__.setdefault('_local_refs', {})
+        if fnpath not in cache:
+            f = self.fns.get(fnpath) if isinstance(fnpath, str) else None
+            cnt = {}
+            if f is not None and 'hir' in f:
+                for n in H.walk(f['hir']):
+                    if n.get('k') == 'Local':
+                        cnt[n['id']] = cnt.get(n['id'], 0) + 1
+            cache[fnpath] = cnt
+        return y['id'] if cache[fnpath].get(y['id'], 0) == 1 else None
+
     def log_only(self, fnpath):
         cache = self.__dict__.setdefault('_log_only', {})
         if fnpath not in cache:
@@ -397,6 +418,14 @@ class Evaluator(object):
             sk = s['k']
             if sk == 'Let' and s.get('pat', {}).get('k') == 'Bind' and s['pat']['id'] in self.log_only(fn):
                 continue  # computed for a log line only
+            if sk == 'Let' and self.moved_alias(fn, s) is not None:
+                yid = self.moved_alias(fn, s)
+                yv = env.get(yid)
+                if yv is None:
+                    yv = self.eval(s['init'], env, guards, fn, chain)
+                self.mutated.pop(s['pat']['id'], None)
+                env[s['pat']['id']] = yv
+                continue
             if sk == 'Let':
                 val = None
                 if s.get('init') is not None:
@@ -1087,6 +1116,9 @@ class Evaluator(object):
                 t = ('call', 'Err', (replace(clo[3], ('var', clo[2][0][0], clo[2][0][1]), inner[2][0]),), ())
             elif inner[1] == 'Ok' and len(inner[2]) == 1:
                 t = inner
+        if t[0] == 'call' and t[1] == 'std::result::Result::map_err' and len(t[2]) == 2 and t[2][1] is not None and t[2][1][0] == 'path' and \
+                (t[2][1][1].endswith('::into') or t[2][1][1].endswith('::from')):
+            t = t[2][0]  # map_err(Into::into): a conversion of the error type, erased like every From/Into
         ev = self.emit('call', t, node, guards, fn, chain, callee=npath, args=args, extra={'decl': ndecl, 'gargs': gargs})
         # bounded inlining of crate-local callees
         target = self.fns.get(npath)
